@@ -132,7 +132,7 @@ PROPS = {
                   "(iter_by_node, iter_by_rrset, soa, ns) compared before/after rejected adds and at the end",
         rule="add sequences of 5-40 records over a 4-label alphabet with out-of-zone owners, parent-of-apex owners, class "
              "mismatches, TTL mismatches (incl. TTLs with the top bit set), duplicates and case variants of owners and RDATA "
-             "names; evaluations = add operations + final comparisons; distinct = (node count, RRset count, SOA count) classes",
+             "names; evaluations = add operations + final comparisons; distinct = (node count, RRset count, SOA count) classes; a quarter of the labels come from the edges of the letter ranges and their case-bit neighbours (z, Z, y, zz, aZ, @, [, `, {, 0, -, 0xc1)",
         assumptions=COMMON_ASSUMPTIONS,
         quick=plans(dict(build="dbg", nshards=16), dict(build="miri", nshards=4, timeout=900)),
         thorough=plans(dict(build="dbg", nshards=16), dict(build="rel", nshards=16), dict(build="asan", nshards=16, scale=0.2), dict(build="miri", nshards=16, timeout=3000)),
